@@ -46,6 +46,11 @@ def workers_for_host(tier, host):
     return 6 if host == common.PRIMARY else 2
 
 
+import sys as _sys
+
+_PRIMARY_HOST = "%d.%d" % _sys.version_info[:2] == common.PRIMARY
+
+
 def prepare(tier):
     vers = QUICK_VERS if tier == "quick" else common.REFS
     k = 1 if tier == "quick" else 2
@@ -220,6 +225,24 @@ def _check(ctx, vtag, ver, cls, where, co, opc, ref_ls, ref_starts, ref_colines)
         want_s = sorted(d.items())
     if got != want_s:
         ctx.violation("%s:starts_line:%s" % (vtag, cls), "starts_line pairs %s, CPython %s (%s)" % (got[:6], want_s[:6], where))
+    elif ref_starts is not None and len(co.co_code) <= 200 and _PRIMARY_HOST:
+        # the same lines through the non-default routes: an explicit first_line (dis.Bytecode semantics: every line moves by
+        # first_line - co_firstlineno, "no line" stays None) and get_instructions_bytes with linestarts + line_offset
+        from xdis.bytecode import Bytecode, get_instructions_bytes
+
+        for delta in (100,):
+            ctx.count("first_line_routes")
+            try:
+                shifted = [(i.offset, i.starts_line) for i in Bytecode(co, opc, first_line=co.co_firstlineno + delta, dup_lines=False) if i.starts_line is not None]
+                want_shift = [(o, l + delta) for o, l in want_s]
+                if shifted != want_shift:
+                    ctx.violation("%s:starts_line:first_line-route:%s" % (vtag, cls), "with first_line=co_firstlineno%+d: %s, expected %s (%s)" % (delta, shifted[:6], want_shift[:6], where))
+                ls = dict(opc.findlinestarts(co, dup_lines=False))
+                via = [(i.offset, i.starts_line) for i in get_instructions_bytes(co.co_code, opc, linestarts=ls, line_offset=delta) if i.starts_line is not None]
+                if via != want_shift:
+                    ctx.violation("%s:starts_line:line_offset-route:%s" % (vtag, cls), "get_instructions_bytes(linestarts, line_offset=%d): %s, expected %s (%s)" % (delta, via[:6], want_shift[:6], where))
+            except Exception as e:
+                ctx.violation("%s:starts_line:first_line-route:raises:%s:%s" % (vtag, type(e).__name__, cls), "%r (%s)" % (e, where))
     if ref_colines is not None and hasattr(co, "co_lines"):
         try:
             def per_unit(ranges):
